@@ -32,6 +32,7 @@ type vByteFaulter struct {
 	armed func() bool
 	log   []string
 	fr    *vFirer
+	lens  []int // length of every candidate place (enumeration base runs)
 }
 
 func (f *vByteFaulter) mangle(l *verifsim.Link, data []byte) []byte {
@@ -45,8 +46,22 @@ func (f *vByteFaulter) mangle(l *verifsim.Link, data []byte) []byte {
 	if f.fr == nil {
 		f.fr = &vFirer{rc: f.rc, label: "bf.fire", pm: f.pm}
 	}
+	f.lens = append(f.lens, len(data))
 	if !f.fr.fire() {
 		return data
+	}
+	if abs, ok := f.rc.enumInt("enum_abs"); ok {
+		// dense enumeration: one given bit of one given byte of this write
+		bit, _ := f.rc.enumInt("enum_bit")
+		f.fired++
+		if abs >= len(data) {
+			return data
+		}
+		out := append([]byte(nil), data...)
+		out[abs] ^= 1 << uint(bit&7)
+		f.rc.fault("byte-flip")
+		f.log = append(f.log, fmt.Sprintf("flip bit %d of byte %d/%d of %s on %s", bit&7, abs, len(data), vQuote(data, 24), l.Name))
+		return out
 	}
 	// position: biased towards the structural bytes of a protocol line
 	n := len(data)
@@ -116,7 +131,7 @@ func (f *vByteFaulter) mangle(l *verifsim.Link, data []byte) []byte {
 	}
 	f.fired++
 	f.rc.fault("byte-" + kind)
-	f.log = append(f.log, fmt.Sprintf("%s %s at %d/%d of %s", kind, l.Name, pos, n, vQuote(data, 24)))
+	f.log = append(f.log, fmt.Sprintf("%s %s at %d/%d of %s", kind, l.Name, pos, n, vQuote(data, 70)))
 	return out
 }
 
@@ -138,14 +153,23 @@ func vSmallXfer(rc *runCtx, timeouts []int) (*vXferConfig, *xferOpts, vSnap) {
 	src := filepath.Join(rc.dir, "src")
 	dst := filepath.Join(rc.dir, "dst")
 	os.MkdirAll(dst, 0755)
+	resume := rc.param("resume", "") == "1"
+	if resume {
+		// the resume (prefix hash) exchange is the subject: overwrite, a protocol that has it, files to resume over
+		cfg.overwrite = true
+		cfg.trigVersion = ""
+		if cfg.protocol == 1 || cfg.protocol == 2 {
+			cfg.protocol = 0
+		}
+	}
 	spec := vGenSources(rc, src, 3, cfg.dirMode, 40000, !cfg.overwrite)
-	if cfg.overwrite && tp.Bool("f.preexist", 500) {
+	if cfg.overwrite && (tp.Bool("f.preexist", 500) || resume) {
 		// some destination content to resume over (hash exchange phase)
 		for _, p := range spec.paths {
 			if st, err := os.Stat(p); err == nil && !st.IsDir() {
 				b, _ := os.ReadFile(p)
 				if len(b) > 2 {
-					vWriteFile(filepath.Join(dst, filepath.Base(p)), b[:len(b)/2])
+					vWriteFile(filepath.Join(dst, filepath.Base(p)), vPriorContent(tp, b))
 				}
 			}
 		}
@@ -196,8 +220,35 @@ func vScenarioC02(rc *runCtx) {
 	rc.w.Run(x.finished)
 	rep := x.report()
 	rc.res.Scenario["faults_log"] = bf.log
+	// reach: did the resume exchange match some steps and then not the next one?
+	for _, msgs := range [][]vMsg{rep.clientMsgs, rep.serverMsgs} {
+		prevMatch := false
+		for _, m := range msgs {
+			if m.Typ != "SUCC" {
+				prevMatch = false
+				continue
+			}
+			if j, err := vDecodeJSON(m.Payload); err != nil {
+				prevMatch = false
+			} else {
+				if mt, ok := j["match"].(bool); ok {
+					if prevMatch && !mt {
+						rc.w.Probe("resume-match-then-mismatch")
+					}
+					if mt {
+						rc.w.Probe("resume-step-matched")
+					}
+					prevMatch = mt
+				}
+			}
+		}
+	}
+	rc.res.Probes = rc.w.Probes
 	if bf.fr != nil {
 		rc.res.Scenario["enum_places"] = bf.fr.count
+		if k, ok := rc.enumInt("enum_k"); ok && k < 0 {
+			rc.res.Scenario["enum_lens"] = bf.lens
+		}
 	}
 	rc.res.Scenario["client_fail"] = vClip(rep.clientFail, 120)
 	rc.res.Scenario["server_fail"] = vClip(rep.serverFail, 120)
